@@ -113,6 +113,7 @@ class Gen:
         self.funcs = []            # (name, params [(n, ty)], results [ty], body text)
         self.structs = []
         self.counter = 0
+        self.in_closure = False
         self.helpers = []          # earlier functions usable in calls: (name, param types, result types)
 
     # ---------- expressions (pure) ----------
@@ -157,12 +158,14 @@ class Gen:
                 op = r.choice(["+", "-", "*", "&", "|", "^"])
                 return "(%s %s %s)" % (a, op, b)
             if k == 4:
-                return "(%s %s (%s | 1))" % (a, r.choice(["/", "%"]), b)
+                # `lit | 1` would be an untyped constant expression: goose prints its operands as 64-bit literals
+                # whatever the context (known finding C01 untyped-constant-operands); keep it typed here
+                return "(%s %s (%s | %s))" % (a, r.choice(["/", "%"]), b, "1" if ty == "uint64" else ty + "(1)")
             if k == 5 and "shifts" in self.f and ty == "uint64":
                 return "(%s %s (%s %% 70))" % (a, r.choice(["<<", ">>"]), b)
             if k == 6 and "conv" in self.f:
                 src = r.choice([t for t in INT_TYPES if t != ty])
-                return "%s(%s)" % (ty, self.expr(env, src, depth - 1, True))
+                return "%s(%s)" % ("byte" if ty == "uint8" and r.random() < 0.5 else ty, self.expr(env, src, depth - 1, True))
             if k == 7 and "strings" in self.f and ty == "uint64":
                 svs = self.vars_of(env, "string")
                 if svs:
@@ -229,22 +232,25 @@ class Gen:
         r = self.r
         out = []
         for _ in range(n):
-            k = r.randrange(16)
+            k = r.choice([0, 1, 2, 3, 4, 5, 6, 7, 5, 6, 8, 9, 10, 11, 12, 12, 13, 13, 14, 14, 15, 15, 16, 16, 17, 17, 18, 18, 19, 19, 19, 20, 21, 21])
             pad = "\t" * ind
             if k < 3:
                 ty = self.scalar_type()
                 name = self.fresh_or_shadow(env)
                 out.append("%s%s := %s" % (pad, name, self.typed(ty, self.expr(env, ty, 2))))
-                out.append("%s_ = %s" % (pad, name))
+                out.append(self.use(pad, name, ty))
                 env.append(Var(name, ty, False))
             elif k < 5:
                 ty = self.scalar_type()
                 name = self.fresh_or_shadow(env)
-                if r.random() < 0.3:
+                if ty == "uint8":
+                    # the initialiser's type would be read, and goose knows the 8-bit type only under the name byte
+                    out.append("%svar %s byte\n%s%s = %s" % (pad, name, pad, name, self.expr(env + [Var(name, ty, True)], ty, 2)))
+                elif r.random() < 0.3:
                     out.append("%svar %s %s" % (pad, name, tyname(ty)))
                 else:
                     out.append("%svar %s %s = %s" % (pad, name, tyname(ty), self.expr(env, ty, 2)))
-                out.append("%s_ = %s" % (pad, name))
+                out.append(self.use(pad, name, ty))
                 env.append(Var(name, ty, True))
             elif k < 8:
                 av = [v for v in self.visible(env) if v.assignable and (v.ty in WIDTH or v.ty in ("bool", "string"))]
@@ -270,30 +276,75 @@ class Gen:
             elif k < 12 and depth > 0 and "loops" in self.f:
                 out += self.loop(env, depth, ind)
             elif k == 12 and "slices" in self.f:
-                out_l, env = self.slice_stmt(env, ind)
-                out += out_l
+                for _ in range(r.randrange(1, 4)):
+                    out_l, env = self.slice_stmt(env, ind)
+                    out += out_l
             elif k == 13 and "maps" in self.f:
-                out_l, env = self.map_stmt(env, ind)
-                out += out_l
+                for _ in range(r.randrange(1, 4)):
+                    out_l, env = self.map_stmt(env, ind)
+                    out += out_l
             elif k == 14 and "structs" in self.f:
-                out_l, env = self.struct_stmt(env, ind)
-                out += out_l
+                for _ in range(r.randrange(1, 4)):
+                    out_l, env = self.struct_stmt(env, ind)
+                    out += out_l
+            elif k == 21 and depth > 0:
+                # a bare block in non-tail position: its declarations shadow and must not leak
+                a, _ = self.stmts(env, r.randrange(1, 4), depth - 1, ind + 1, in_loop)
+                out.append("%s{" % pad)
+                out += a or ["%s\t_ = 0" % pad]
+                out.append("%s}" % pad)
+            elif k == 16 and "closures" in self.f:
+                for _ in range(r.randrange(1, 4)):
+                    out_l, env = self.closure_stmt(env, ind)
+                    out += out_l
+            elif k == 17 and "pointers" in self.f:
+                for _ in range(r.randrange(1, 4)):
+                    out_l, env = self.pointer_stmt(env, ind)
+                    out += out_l
+            elif k == 18 and "bytes" in self.f:
+                for _ in range(r.randrange(1, 4)):
+                    out_l, env = self.bytes_stmt(env, ind)
+                    out += out_l
+            elif k == 19 and "structs" in self.f and "methods" in self.f:
+                for _ in range(r.randrange(1, 4)):
+                    out_l, env = self.method_stmt(env, ind)
+                    out += out_l
+            elif k == 20 and depth > 0:
+                # else-if chain assigning to a var
+                av = [v for v in self.visible(env) if v.assignable and v.ty == "uint64"]
+                if av:
+                    v = av[0]
+                    out.append("%sif %s {\n%s\t%s = %s\n%s} else if %s {\n%s\t%s = %s\n%s}" % (
+                        pad, self.expr(env, "bool", 1), pad, v.name, self.expr(env, "uint64", 1), pad,
+                        self.expr(env, "bool", 1), pad, v.name, self.expr(env, "uint64", 1), pad))
             elif k == 15 and self.helpers and "calls" in self.f:
                 h = r.choice(self.helpers)
                 args = ", ".join(self.expr(env, t, 1) for t in h[1])
                 if len(h[2]) == 1:
                     name = self.fresh_or_shadow(env)
                     out.append("%s%s := %s(%s)" % (pad, name, h[0], args))
-                    out.append("%s_ = %s" % (pad, name))
+                    out.append(self.use(pad, name, h[2][0]))
                     env.append(Var(name, h[2][0], False))
                 elif len(h[2]) == 2:
                     n1, n2 = self.fresh_or_shadow(env), self.fresh_or_shadow(env)
                     out.append("%s%s, %s := %s(%s)" % (pad, n1, n2, h[0], args))
-                    out.append("%s_ = %s" % (pad, n1))
-                    out.append("%s_ = %s" % (pad, n2))
+                    out.append(self.use(pad, n1, h[2][0]))
+                    out.append(self.use(pad, n2, h[2][1]))
                     env.append(Var(n1, h[2][0], False))
                     env.append(Var(n2, h[2][1], False))
         return out, env
+
+    def use(self, pad, name, ty):
+        """fold a fresh local into the accumulator, so that results depend on everything computed"""
+        if ty == "uint64":
+            return "%sacc = acc*3 + %s" % (pad, name)
+        if ty in WIDTH:
+            return "%sacc = acc*3 + uint64(%s)" % (pad, name)
+        if ty == "bool":
+            return "%sif %s {\n%s\tacc = acc + 1\n%s}" % (pad, name, pad, pad)
+        if ty == "string":
+            return "%sacc = acc*3 + uint64(len(%s))" % (pad, name)
+        return "%s_ = %s" % (pad, name)
 
     def typed(self, ty, e):
         """`x := e` must give x the intended type: wrap literals/untyped constants."""
@@ -317,18 +368,26 @@ class Gen:
         accs = [v for v in self.visible(env) if v.assignable and v.ty == "uint64"]
         kind = r.randrange(3)
         if kind == 0:
-            iv = r.choice(["i", "j", "n"]) if "loopvar_reuse" in self.f else r.choice(["li", "lj", "lk"])
+            iv = r.choice(["i", "j", "n"]) if "loopvar_reuse" in self.f else "l%d" % self.fresh()
             out.append("%sfor %s := uint64(0); %s < %d; %s++ {" % (pad, iv, iv, bound, iv))
             env2 = env + [Var(iv, "uint64", False)]     # not assignable by the body (goose pointer-wraps it, Go allows; keep simple)
-            body, _ = self.stmts(env2, r.randrange(1, 3), depth - 1, ind + 1, True)
+            body, env3 = self.stmts(env2, r.randrange(1, 3), depth - 1, ind + 1, True)
             out += body
+            accs = [v for v in self.visible(env3) if v.assignable and v.ty == "uint64"]
             if accs:
                 out.append("%s\t%s = %s + %s" % (pad, accs[0].name, accs[0].name, iv))
-            c = r.randrange(4)
-            if c == 0:
-                out.append("%s\tif %s {\n%s\t\tbreak\n%s\t}" % (pad, self.expr(env2, "bool", 1), pad, pad))
+            c = r.randrange(7)
+            if c == 4:
+                out.append("%s\tif %s {\n%s\t\tcontinue\n%s\t} else {\n%s\t\tbreak\n%s\t}" % (pad, self.expr(env3, "bool", 1), pad, pad, pad, pad))
+            elif c == 5 and "tailblock" in self.f:
+                out.append("%s\t{\n%s\t\tif %s {\n%s\t\t\tbreak\n%s\t\t}\n%s\t\tcontinue\n%s\t}" % (pad, pad, self.expr(env3, "bool", 1), pad, pad, pad, pad))
+            elif c == 6 and accs:
+                out.append("%s\tif %s {\n%s\t\t%s = %s + 2\n%s\t\tcontinue\n%s\t}\n%s\t%s = %s ^ 1" % (
+                    pad, self.expr(env3, "bool", 1), pad, accs[0].name, accs[0].name, pad, pad, pad, accs[0].name, accs[0].name))
+            elif c == 0:
+                out.append("%s\tif %s {\n%s\t\tbreak\n%s\t}" % (pad, self.expr(env3, "bool", 1), pad, pad))
             elif c == 1:
-                out.append("%s\tif %s {\n%s\t\tcontinue\n%s\t}" % (pad, self.expr(env2, "bool", 1), pad, pad))
+                out.append("%s\tif %s {\n%s\t\tcontinue\n%s\t}" % (pad, self.expr(env3, "bool", 1), pad, pad))
                 if accs:
                     out.append("%s\t%s = %s + 1" % (pad, accs[0].name, accs[0].name))
             out.append("%s}" % pad)
@@ -387,11 +446,11 @@ class Gen:
             if accs:
                 form = r.randrange(3)
                 if form == 0:
-                    out.append("%sfor _, x := range %s {\n%s\t%s = %s + x\n%s}" % (pad, s.name, pad, accs[0].name, accs[0].name, pad))
+                    out.append("%sfor _, rx := range %s {\n%s\t%s = %s + rx\n%s}" % (pad, s.name, pad, accs[0].name, accs[0].name, pad))
                 elif form == 1:
-                    out.append("%sfor i := range %s {\n%s\t%s = %s + uint64(i)\n%s}" % (pad, s.name, pad, accs[0].name, accs[0].name, pad))
+                    out.append("%sfor ri := range %s {\n%s\t%s = %s + uint64(ri)\n%s}" % (pad, s.name, pad, accs[0].name, accs[0].name, pad))
                 else:
-                    out.append("%sfor i, x := range %s {\n%s\t%s = %s + uint64(i)*x\n%s}" % (pad, s.name, pad, accs[0].name, accs[0].name, pad))
+                    out.append("%sfor ri, rx := range %s {\n%s\t%s = %s + uint64(ri)*rx\n%s}" % (pad, s.name, pad, accs[0].name, accs[0].name, pad))
         elif k == 4:
             name = "t%d" % self.fresh()
             out.append("%s%s := %s[:uint64(len(%s))/2]" % (pad, name, s.name, s.name))
@@ -421,14 +480,15 @@ class Gen:
         elif k == 2:
             n1, n2 = "v%d" % self.fresh(), "ok%d" % self.fresh()
             out.append("%s%s, %s := %s[%s %% 4]" % (pad, n1, n2, m.name, self.expr(env, "uint64", 1)))
-            out.append("%s_ = %s\n%s_ = %s" % (pad, n1, pad, n2))
+            out.append(self.use(pad, n1, "uint64"))
+            out.append(self.use(pad, n2, "bool"))
             env = env + [Var(n1, "uint64", False), Var(n2, "bool", False)]
         elif k == 3:
             out.append("%sdelete(%s, %s %% 4)" % (pad, m.name, self.expr(env, "uint64", 1)))
         elif k == 4:
             accs = [v for v in self.visible(env) if v.assignable and v.ty == "uint64"]
             if accs:
-                out.append("%sfor k, v := range %s {\n%s\t%s = %s + k*3 + v\n%s}" % (pad, m.name, pad, accs[0].name, accs[0].name, pad))
+                out.append("%sfor rk, rv := range %s {\n%s\t%s = %s + rk*3 + rv\n%s}" % (pad, m.name, pad, accs[0].name, accs[0].name, pad))
         return out, env
 
     def struct_stmt(self, env, ind):
@@ -458,13 +518,192 @@ class Gen:
             out.append("%s_ = %s" % (pad, name))
         return out, env
 
+    def closure_stmt(self, env, ind):
+        r = self.r
+        pad = "\t" * ind
+        gs = self.vars_of(env, "func(uint64) uint64")
+        if not gs or r.random() < 0.5:
+            name = "g%d" % self.fresh()
+            saved = self.block
+            self.block = {"ca"}
+            inner = env + [Var("ca", "uint64", False)]
+            self.in_closure = True
+            body, ienv = self._stmts(inner, r.randrange(0, 2), 0, ind + 1, False)
+            self.in_closure = False
+            self.block = saved
+            lines = ["%s%s := func(ca uint64) uint64 {" % (pad, name)] + body + \
+                    ["%s\treturn %s" % (pad, self.expr(ienv, "uint64", 2)), "%s}" % pad, "%s_ = %s" % (pad, name)]
+            return lines, env + [Var(name, "func(uint64) uint64", False)]
+        g = r.choice(gs)
+        name = self.fresh_or_shadow(env)
+        return ["%s%s := %s(%s)" % (pad, name, g.name, self.expr(env, "uint64", 1)), self.use(pad, name, "uint64")], env + [Var(name, "uint64", False)]
+
+    def pointer_stmt(self, env, ind):
+        r = self.r
+        pad = "\t" * ind
+        ws = self.vars_of(env, "*uint64")
+        k = r.randrange(5)
+        if not ws or k == 0:
+            name = "w%d" % self.fresh()
+            av = [v for v in self.visible(env) if v.assignable and v.ty == "uint64"]
+            if av and r.random() < 0.5:
+                return ["%s%s := &%s" % (pad, name, av[0].name), "%s_ = %s" % (pad, name)], env + [Var(name, "*uint64", False)]
+            return ["%s%s := new(uint64)" % (pad, name), "%s_ = %s" % (pad, name)], env + [Var(name, "*uint64", False)]
+        w = r.choice(ws)
+        if k in (1, 2):
+            return ["%s*%s = %s" % (pad, w.name, self.expr(env, "uint64", 1))], env
+        if k == 3:
+            name = self.fresh_or_shadow(env)
+            return ["%s%s := *%s" % (pad, name, w.name), self.use(pad, name, "uint64")], env + [Var(name, "uint64", False)]
+        name = "w%d" % self.fresh()
+        return ["%s%s := %s" % (pad, name, w.name), "%s_ = %s" % (pad, name)], env + [Var(name, "*uint64", False)]
+
+    def bytes_stmt(self, env, ind):
+        r = self.r
+        pad = "\t" * ind
+        bs = self.vars_of(env, "[]byte")
+        k = r.randrange(7)
+        if not bs or k == 0:
+            name = "bs%d" % self.fresh()
+            svs = self.vars_of(env, "string")
+            if svs and r.random() < 0.5:
+                return ["%s%s := []byte(%s)" % (pad, name, r.choice(svs).name), "%s_ = %s" % (pad, name)], env + [Var(name, "[]byte", False)]
+            return ["%s%s := make([]byte, %d)" % (pad, name, r.choice([0, 1, 8, 9, 12])), "%s_ = %s" % (pad, name)], env + [Var(name, "[]byte", False)]
+        b = r.choice(bs)
+        if k == 1:
+            return ["%sif uint64(len(%s)) >= 8 {\n%s\tmachine.UInt64Put(%s, %s)\n%s}" % (pad, b.name, pad, b.name, self.expr(env, "uint64", 1), pad)], env
+        if k == 2:
+            return ["%sif uint64(len(%s)) >= 4 {\n%s\tmachine.UInt32Put(%s, %s)\n%s}" % (pad, b.name, pad, b.name, self.expr(env, "uint32", 1), pad)], env
+        if k == 3:
+            av = [v for v in self.visible(env) if v.assignable and v.ty == "uint64"]
+            if av:
+                return ["%sif uint64(len(%s)) >= 8 {\n%s\t%s = %s ^ machine.UInt64Get(%s)\n%s}" % (pad, b.name, pad, av[0].name, av[0].name, b.name, pad)], env
+            return [], env
+        if k == 4:
+            av = [v for v in self.visible(env) if v.assignable and v.ty == "uint64"]
+            if av:
+                return ["%sif uint64(len(%s)) >= 4 {\n%s\t%s = %s + uint64(machine.UInt32Get(%s))\n%s}" % (pad, b.name, pad, av[0].name, av[0].name, b.name, pad)], env
+            return [], env
+        if k == 5:
+            return ["%sif uint64(len(%s)) > 0 {\n%s\t%s[%s %% uint64(len(%s))] = %s\n%s}" % (
+                pad, b.name, pad, b.name, self.expr(env, "uint64", 1), b.name, self.expr(env, "uint8", 1), pad)], env
+        name = self.fresh_or_shadow(env)
+        return ["%s%s := string(%s)" % (pad, name, b.name), self.use(pad, name, "string")], env + [Var(name, "string", False)]
+
+    def method_stmt(self, env, ind):
+        r = self.r
+        pad = "\t" * ind
+        ps = self.vars_of(env, "*S0")
+        vs = self.vars_of(env, "S0")
+        k = r.randrange(5)
+        if k == 0 or not (ps or vs):
+            name = "sv%d" % self.fresh()
+            return ["%s%s := S0{a: %s, b: %s}" % (pad, name, self.expr(env, "uint64", 1), self.expr(env, "bool", 1)), "%s_ = %s" % (pad, name)], env + [Var(name, "S0", False)]
+        if ps and k == 1:
+            return ["%s%s.addA(%s)" % (pad, r.choice(ps).name, self.expr(env, "uint64", 1))], env
+        if ps and k == 2:
+            name = self.fresh_or_shadow(env)
+            return ["%s%s := %s.getA()" % (pad, name, r.choice(ps).name), self.use(pad, name, "uint64")], env + [Var(name, "uint64", False)]
+        if vs and k == 3:
+            name = self.fresh_or_shadow(env)
+            return ["%s%s := %s.valA()" % (pad, name, r.choice(vs).name), self.use(pad, name, "uint64")], env + [Var(name, "uint64", False)]
+        if ps:
+            p = r.choice(ps)
+            if r.random() < 0.5:
+                return ["%s%s.a %s %s" % (pad, p.name, r.choice(["+=", "-=", "|=", "&=", "^="]), self.expr(env, "uint64", 1))], env
+            name = "sv%d" % self.fresh()
+            return ["%s%s := *%s" % (pad, name, p.name), "%s_ = %s" % (pad, name)], env + [Var(name, "S0", False)]
+        return [], env
+
+    def final_mix(self, env, pad):
+        """read everything reachable from the heap-typed locals into the accumulator"""
+        out = []
+        for v in self.visible(env)[:12]:
+            if v.ty == "*uint64":
+                out.append("%sacc = acc*5 + *%s" % (pad, v.name))
+            elif v.ty == "*S0":
+                out.append("%sacc = acc*5 + %s.a\n%sif %s.b {\n%s\tacc = acc + 1\n%s}" % (pad, v.name, pad, v.name, pad, pad))
+            elif v.ty == "S0":
+                out.append("%sacc = acc*5 + %s.a" % (pad, v.name))
+            elif v.ty == "[]uint64":
+                out.append("%sfor _, mx := range %s {\n%s\tacc = acc*5 + mx\n%s}\n%sacc = acc + uint64(len(%s))" % (pad, v.name, pad, pad, pad, v.name))
+            elif v.ty == "[]byte":
+                out.append("%sfor _, mb := range %s {\n%s\tacc = acc*5 + uint64(mb)\n%s}\n%sacc = acc + uint64(len(%s))" % (pad, v.name, pad, pad, pad, v.name))
+            elif v.ty == "map[uint64]uint64":
+                out.append("%sacc = acc*5 + %s[0] + 2*%s[1] + 3*%s[2] + 4*%s[3] + uint64(len(%s))" % (pad, v.name, v.name, v.name, v.name, v.name))
+        return out
+
     # ---------- functions ----------
+    def tail(self, env, rtys, depth, ind, top, blk=True):
+        """statements that end the function on every path with a return (tail position).
+        blk: a bare `{ … return }` block may end this list (goose does not look through a block when it
+        decides whether the body of an else-less `if` always returns, so not inside such a body)"""
+        r = self.r
+        pad = "\t" * ind
+        tk = r.randrange(7) if depth > 0 else 0
+        if tk == 0 or tk == 6 and ("tailblock" not in self.f or not blk):
+            return self.final_mix(env, pad) + ["%sreturn %s" % (pad, self.result_expr(env, rtys))]
+        if tk == 1:
+            more, env2 = self.stmts(env, r.randrange(0, 3), 1, ind, declared=top)
+            top2 = top | set(self.last_block)
+            return ["%sif %s {" % (pad, self.expr(env, "bool", 2))] + self.tail(env, rtys, 0, ind + 1, set()) + ["%s}" % pad] + more + \
+                self.tail(env2, rtys, depth - 1, ind, top2, blk)
+        if tk == 2:
+            a, ea = self.stmts(env, r.randrange(0, 2), 1, ind + 1)
+            ta = set(self.last_block)
+            b, eb = self.stmts(env, r.randrange(0, 2), 1, ind + 1)
+            tb = set(self.last_block)
+            return ["%sif %s {" % (pad, self.expr(env, "bool", 2))] + a + self.tail(ea, rtys, depth - 1, ind + 1, ta, blk) + ["%s} else {" % pad] + b + \
+                self.tail(eb, rtys, depth - 1, ind + 1, tb, blk) + ["%s}" % pad]
+        if tk == 3:
+            a, ea = self.stmts(env, r.randrange(0, 2), 1, ind + 1)
+            ta = set(self.last_block)
+            return ["%sif %s {" % (pad, self.expr(env, "bool", 2))] + a + ["%s\tif %s {" % (pad, self.expr(ea, "bool", 1)),
+                    "%s\t\treturn %s" % (pad, self.result_expr(ea, rtys)), "%s\t}" % pad] + self.tail(ea, rtys, depth - 1, ind + 1, ta, False) + ["%s}" % pad] + \
+                self.tail(env, rtys, depth - 1, ind, top, blk)
+        if tk == 4:
+            return ["%sif %s {" % (pad, self.expr(env, "bool", 2))] + self.tail(env, rtys, 0, ind + 1, set()) + \
+                   ["%s} else if %s {" % (pad, self.expr(env, "bool", 2))] + self.tail(env, rtys, 0, ind + 1, set()) + \
+                   ["%s} else {" % pad] + self.tail(env, rtys, depth - 1, ind + 1, set(), blk) + ["%s}" % pad]
+        if tk == 5:
+            more, env2 = self.stmts(env, r.randrange(1, 3), 1, ind, declared=top)
+            return more + self.tail(env2, rtys, depth - 1, ind, top | set(self.last_block), blk)
+        a, ea = self.stmts(env, r.randrange(0, 3), 1, ind + 1)
+        ta = set(self.last_block)
+        return ["%s{" % pad] + a + self.tail(ea, rtys, depth - 1, ind + 1, ta, blk) + ["%s}" % pad]
+
     def result_expr(self, env, rtys):
+        if self.in_closure:
+            return self.result_expr0(env, rtys)
         parts = []
         for t in rtys:
-            if t in ("[]uint64", "*S0", "map[uint64]uint64"):
+            e = self.result_expr0(env, [t])
+            if t == "uint64":
+                e = "(acc ^ %s)" % e
+            elif t in WIDTH:
+                e = "(%s(acc) ^ %s)" % (t, e)
+            elif t == "bool":
+                e = "((acc %% 3 == 1) != %s)" % e
+            elif t == "string":
+                e = "(%s + machine.UInt64ToString(acc %% 1000))" % e
+            elif t == "[]uint64":
+                e = "append(%s, acc)" % e
+            elif t == "[]byte":
+                e = "append(%s, uint8(acc))" % e
+            elif t == "*S0":
+                e = "&S0{a: acc + %s.a, b: %s.b}" % (e, e) if not e.startswith("&") else "&S0{a: acc}"
+            elif t == "S0":
+                e = "S0{a: acc ^ %s.a, b: %s.b}" % (e, e) if not e.startswith("S0{") else "S0{a: acc, b: true}"
+            parts.append(e)
+        return ", ".join(parts)
+
+    def result_expr0(self, env, rtys):
+        parts = []
+        for t in rtys:
+            if t in ("[]uint64", "*S0", "map[uint64]uint64", "[]byte", "S0", "*uint64"):
                 vs = self.vars_of(env, t)
-                parts.append(self.r.choice(vs).name if vs else {"[]uint64": "make([]uint64, 1)", "*S0": "&S0{a: 1}", "map[uint64]uint64": "make(map[uint64]uint64)"}[t])
+                parts.append(self.r.choice(vs).name if vs else {"[]uint64": "make([]uint64, 1)", "*S0": "&S0{a: 1}", "map[uint64]uint64": "make(map[uint64]uint64)",
+                                                                 "[]byte": "make([]byte, 2)", "S0": "S0{a: 2, b: true}", "*uint64": "new(uint64)"}[t])
             else:
                 parts.append(self.expr(env, t, 2))
         return ", ".join(parts)
@@ -485,36 +724,27 @@ class Gen:
             rtys = ["map[uint64]uint64"]
         elif rk == 3:
             rtys = [self.scalar_type(), self.scalar_type()]
+        elif rk == 5 and "bytes" in self.f:
+            rtys = ["[]byte"]
+        elif rk == 6 and "structs" in self.f and "methods" in self.f:
+            rtys = ["S0"]
+        elif rk == 7 and "pointers" in self.f:
+            rtys = ["*uint64"]
         elif rk == 4:
             rtys = []
         env = [Var("seed_uint64", "uint64", False), Var("seed_uint32", "uint32", False), Var("seed_uint8", "uint8", False)] + \
               [Var(n, t, False) for n, t in params]
         seeds = ["\tseed_uint64 := uint64(%d)" % r.choice([0, 1, 5, 2 ** 64 - 1, r.randrange(2 ** 64)]), "\t_ = seed_uint64",
                  "\tseed_uint32 := uint32(%d)" % r.choice([0, 1, 7, 2 ** 32 - 1, r.randrange(2 ** 32)]), "\t_ = seed_uint32",
-                 "\tseed_uint8 := uint8(%d)" % r.choice([0, 1, 9, 255, r.randrange(256)]), "\t_ = seed_uint8"]
-        lines, env = self.stmts(env, r.randrange(1, 6), 2, 1, declared={n for n, _ in params})
+                 "\tseed_uint8 := uint8(%d)" % r.choice([0, 1, 9, 255, r.randrange(256)]), "\t_ = seed_uint8",
+                 "\tvar acc uint64 = %d" % r.choice([0, 1, r.randrange(2 ** 64)]), "\t_ = acc"]
+        lines, env = self.stmts(env, r.randrange(2, 9), 2, 1, declared={n for n, _ in params} | {"acc"})
         top = set(self.last_block)
         lines = seeds + lines
-        # tail: plain return, early return + rest, or if/else both returning
-        tk = r.randrange(4)
         if not rtys:
             tail = []
-        elif tk == 0:
-            tail = ["\treturn %s" % self.result_expr(env, rtys)]
-        elif tk == 1:
-            more, env2 = self.stmts(env, r.randrange(0, 3), 1, 1, declared=top)
-            tail = ["\tif %s {" % self.expr(env, "bool", 2), "\t\treturn %s" % self.result_expr(env, rtys), "\t}"] + more + \
-                   ["\treturn %s" % self.result_expr(env2, rtys)]
-        elif tk == 2:
-            a, ea = self.stmts(env, r.randrange(0, 2), 1, 2)
-            b, eb = self.stmts(env, r.randrange(0, 2), 1, 2)
-            tail = ["\tif %s {" % self.expr(env, "bool", 2)] + a + ["\t\treturn %s" % self.result_expr(ea, rtys), "\t} else {"] + b + \
-                   ["\t\treturn %s" % self.result_expr(eb, rtys), "\t}"]
         else:
-            a, ea = self.stmts(env, r.randrange(0, 2), 1, 2)
-            tail = ["\tif %s {" % self.expr(env, "bool", 2)] + a + ["\t\tif %s {" % self.expr(ea, "bool", 1),
-                    "\t\t\treturn %s" % self.result_expr(ea, rtys), "\t\t}", "\t\treturn %s" % self.result_expr(ea, rtys), "\t}",
-                    "\treturn %s" % self.result_expr(env, rtys)]
+            tail = self.tail(env, rtys, 2, 1, top)
         sig = "func %s(%s)" % (name, ", ".join("%s %s" % (n, tyname(t)) for n, t in params))
         if len(rtys) == 1:
             sig += " " + tyname(rtys[0])
@@ -542,7 +772,14 @@ class Gen:
         return out
 
 
-ALL_FEATURES = {"widths", "strings", "loops", "slices", "maps", "structs", "calls", "conv", "shifts"}
+ALL_FEATURES = {"widths", "strings", "loops", "slices", "maps", "structs", "calls", "conv", "shifts",
+                "closures", "pointers", "bytes", "methods", "tailblock"}
+
+METHODS = [
+    "func (s *S0) getA() uint64 {\n\treturn s.a\n}\n",
+    "func (s *S0) addA(v uint64) {\n\ts.a = s.a + v\n}\n",
+    "func (s S0) valA() uint64 {\n\tif s.b {\n\t\treturn s.a + 1\n\t}\n\treturn s.a\n}\n",
+]
 
 
 def tyname(t):
@@ -572,13 +809,17 @@ def package(seed, nfuncs=12, features=None, nvec=3):
     g = Gen(rnd, features if features is not None else ALL_FEATURES)
     for k in range(nfuncs):
         g.func("f%d" % k)
-    src = ["package p", ""]
+    decls = [g.funcs[k][3] for k in range(len(g.funcs))]
     if "structs" in g.f:
-        src += ["type S0 struct {", "\ta uint64", "\tb bool", "}", ""]
-    order = list(range(len(g.funcs)))
-    rnd.shuffle(order)          # declaration order differs from definition order
-    for k in order:
-        src.append(g.funcs[k][3])
+        decls.append("type S0 struct {\n\ta uint64\n\tb bool\n}\n")
+        if "methods" in g.f:
+            decls += METHODS
+    rnd.shuffle(decls)          # declaration order differs from definition order
+    body = "\n".join(decls)
+    src = ["package p", ""]
+    if "machine." in body:
+        src += ['import "github.com/goose-lang/goose/machine"', ""]
+    src.append(body)
     runner = [PRINTER, "func RunAll() {"]
     calls = []
     for name, params, rtys, _ in g.funcs:
